@@ -52,7 +52,12 @@ ASSUMPTIONS = [
     "line = 1 + number of LF (or CRLF) before the position; no other line separator "
     "(FF, NEL, U+2028) is generated",
     "comment order is the order of markup units in the source; a comment attached to no "
-    "message is never a violation (the statement is an only-if)",
+    "message is never a violation (the statement is an only-if); 'immediately follows' is "
+    "refuted by: attached to an earlier message, to a message beyond another extracted "
+    "message, to two messages, an untagged comment, or >= 1 whole source line between the "
+    "comment's last line and the line on which the message's statement starts",
+    "cycle tags hosting a message are generated in the root template only (the cycle group "
+    "key is an identity hash; in a re-parsed partial the evaluated item is address-dependent)",
     "a render that raises is tolerated (C02's subject); lookups logged before the error "
     "are still judged",
 ]
@@ -1462,19 +1467,23 @@ def shards(tier: str, seed: int) -> list[dict[str, Any]]:
 
 
 def floors(tier: str) -> dict[str, int]:
+    # DESIGN 5.1 asks for >= 3 000 matched lookups, >= 500 comment attachments and
+    # >= 2 000 extraction calls (quick; x20 thorough); the calibrated floors are higher.
     k = 1 if tier == "quick" else 20
     return {
-        "evaluations": 3_000 * k,
-        "distinct_nontrivial": 2_000 * k,
-        "lookups_matched": 3_000 * k,
-        "comment_attachments_checked": 500 * k,
-        "extraction_calls": 2_000 * k,
-        "lineno_matched_beyond_line_1": 1_000 * k,
-        "set:matched_constructs": 30,
+        "evaluations": 10_000 * k,
+        "distinct_nontrivial": 8_000 * k,
+        "lookups_matched": 40_000 * k,
+        "comment_attachments_checked": 5_000 * k,
+        "extraction_calls": 10_000 * k,
+        "lineno_matched_beyond_line_1": 30_000 * k,
+        "mutants_extracted": 1_500 * k,
+        "set:matched_constructs": 40,
         "set:matched_forms": 12,
-        "set:comment_kinds_attached": 5,
-        "enum_cases": 1_000,
-        "edge_templates_extracted": 800,
+        "set:comment_kinds_attached": 6,
+        "set:runtime_funcs": 4,
+        "enum_cases": 1_200,
+        "edge_templates_extracted": 900,
     }
 
 
